@@ -1,4 +1,727 @@
-//! C12 — stub, not built yet.
+//! C12 — maps, vectors and strings obey collection laws under the language's equality.
+//!
+//! Correspondence: `C12 <word|{}|[]|foreach> <operands bottom-first>` → canonical outcome; every line is
+//! self-contained (operation *sequences* are threaded by the harness: the result of one step is an
+//! operand of the next, and the previous collection is re-read after every update).
+//! Oracle (implementation only): a list-based association list keyed by an independent structural
+//! equality (`same`), a `Vec<Cell>` / `Vec<char>` sequence model with Python-style index clamping.
+//!
+//! Known finding (DESIGN §6 #16/#20): `Ord for Cell` answers `Equal` for every pair that is not
+//! int/int, real/real, str/str, so map keys of different types collide and `sort` of mixed vectors may
+//! panic. An oracle failure is prefixed `[incomparable-keys]` / `[incomparable-sort]` **iff the generated
+//! input contains a map key / sort element outside the guard** (all keys of ONE of the classes int /
+//! non-NaN real / str) — decided from the key mode the sequence was generated in, never from the failure.
+use super::gen::*;
+use crate::canon;
+use crate::rng::Rng;
 use crate::Ctx;
+use xeh::prelude::*;
 
-pub fn run(_ctx: &mut Ctx) {}
+pub(crate) const SRC_MAP_LIT: &str = "{ dup unbox } swap drop";
+pub(crate) const SRC_VEC_LIT: &str = "[ dup unbox ] swap drop";
+pub(crate) const SRC_FOREACH: &str = "[ dup foreach I loop ] swap drop";
+
+/// run `src` on a clone of `base` with `args` pushed (bottom first): canonical outcome + result stack
+pub(crate) fn run_src(base: &Xstate, src: &str, args: &[Cell]) -> (String, Option<Vec<Cell>>) {
+    let mut xs = base.clone();
+    let r = crate::guarded(|| {
+        for a in args {
+            xs.push_data(a.clone()).unwrap();
+        }
+        let res = xs.eval(src);
+        (res, canon::stack(&xs))
+    });
+    match r {
+        None => ("panic".into(), None),
+        Some((Ok(()), st)) => (canon::ok_stack(&st), Some(st)),
+        Some((Err(e), _)) => (format!("err {}", canon::err(&e)), None),
+    }
+}
+
+fn src_of(word: &str) -> &str {
+    match word {
+        "{}" => SRC_MAP_LIT,
+        "[]" => SRC_VEC_LIT,
+        "foreach" => SRC_FOREACH,
+        w => w,
+    }
+}
+
+/// run + record the correspondence line
+fn step(ctx: &mut Ctx, base: &Xstate, word: &str, args: &[Cell]) -> (String, Option<Vec<Cell>>) {
+    let (out, st) = run_src(base, src_of(word), args);
+    ctx.tag(&format!("word:{}", word));
+    let kind = if out.starts_with("ok") { "ok".to_string() } else { out.split(|c| c == ' ' || c == ':').take(2).collect::<Vec<_>>().join(":") };
+    ctx.tag(&format!("outcome:{}", kind));
+    ctx.case(format!("C12 {} {}", word, canon::stack_str(args)).trim_end().to_string(), out.clone());
+    (out, st)
+}
+
+// ---------------------------------------------------------------------------------------------
+// independent equality and ordering of the reference
+
+/// structural equality that ignores tags at every depth (the language's `equal?` as the property states it)
+pub(crate) fn same(a: &Cell, b: &Cell) -> bool {
+    match (a.value(), b.value()) {
+        (Cell::Nil, Cell::Nil) => true,
+        (Cell::Flag(x), Cell::Flag(y)) => x == y,
+        (Cell::Int(x), Cell::Int(y)) => x == y,
+        (Cell::Real(x), Cell::Real(y)) => x == y,
+        (Cell::Str(x), Cell::Str(y)) => x.as_str() == y.as_str(),
+        (Cell::Bitstr(x), Cell::Bitstr(y)) => canon::bits_of(x) == canon::bits_of(y),
+        (Cell::Vector(x), Cell::Vector(y)) => x.len() == y.len() && x.iter().zip(y.iter()).all(|(p, q)| same(p, q)),
+        (Cell::Map(x), Cell::Map(y)) => {
+            x.size() == y.size() && x.iter().all(|(k, v)| y.iter().any(|(k2, v2)| same(k, k2) && same(v, v2)))
+        }
+        _ => false,
+    }
+}
+
+#[derive(Clone, Copy, PartialEq, Debug)]
+pub(crate) enum KeyMode {
+    Int,
+    Real,
+    Str,
+    /// keys that `Ord` cannot order at all (nil, flags, bit-strings, vectors, maps, NaN)
+    Wild,
+    /// a mixture of everything
+    Mixed,
+}
+
+impl KeyMode {
+    fn guarded(self) -> bool {
+        matches!(self, KeyMode::Int | KeyMode::Real | KeyMode::Str)
+    }
+    fn name(self) -> &'static str {
+        match self { KeyMode::Int => "int", KeyMode::Real => "real", KeyMode::Str => "str", KeyMode::Wild => "wild", KeyMode::Mixed => "mixed" }
+    }
+}
+
+/// class of a key under the guard: Some(0|1|2) for int / non-NaN real / str
+fn key_class(c: &Cell) -> Option<u8> {
+    match c.value() {
+        Cell::Int(_) => Some(0),
+        Cell::Real(r) if !r.is_nan() => Some(1),
+        Cell::Str(_) => Some(2),
+        _ => None,
+    }
+}
+
+/// reference order inside one class
+fn ref_less(a: &Cell, b: &Cell) -> bool {
+    match (a.value(), b.value()) {
+        (Cell::Int(x), Cell::Int(y)) => x < y,
+        (Cell::Real(x), Cell::Real(y)) => x < y,
+        (Cell::Str(x), Cell::Str(y)) => x.as_bytes() < y.as_bytes(),
+        _ => false,
+    }
+}
+
+// ---------------------------------------------------------------------------------------------
+// generators
+
+const REAL_KEYS: &[f64] = &[0.0, -0.0, 1.0, -1.0, 1.5, 2.5, -2.5, 1e300, -1e300, f64::INFINITY, f64::NEG_INFINITY, 5e-324, 0.1];
+const STR_KEYS: &[&str] = &["", "a", "b", "ab", "abc", "B", "é", "日本", "z", "#fmt", "k", "😀"];
+
+fn gen_wild(r: &mut Rng) -> Cell {
+    match r.below(7) {
+        0 => Cell::Nil,
+        1 => Cell::Flag(r.bool()),
+        2 => Cell::Bitstr(bitstr_from_bits(&gen_bits(r, 9))),
+        3 => {
+            let mut v = Xvec::new();
+            for _ in 0..r.below(3) {
+                v.push_back_mut(Cell::Int(r.range(-2, 2) as i128));
+            }
+            Cell::Vector(v)
+        }
+        4 => {
+            let mut m = Xmap::new();
+            for _ in 0..r.below(3) {
+                m.insert_mut(Cell::Int(r.range(0, 3) as i128), Cell::Int(r.range(0, 9) as i128));
+            }
+            Cell::Map(m)
+        }
+        5 => Cell::Real(f64::NAN),
+        _ => Cell::Nil,
+    }
+}
+
+pub(crate) fn gen_key(r: &mut Rng, mode: KeyMode) -> Cell {
+    let k = match mode {
+        KeyMode::Int => {
+            if r.chance(80) { Cell::Int(r.range(-4, 6) as i128) } else { Cell::Int(gen_int(r)) }
+        }
+        KeyMode::Real => Cell::Real(*r.pick(REAL_KEYS)),
+        KeyMode::Str => Cell::from(*r.pick(STR_KEYS)),
+        KeyMode::Wild => gen_wild(r),
+        KeyMode::Mixed => {
+            let m = *r.pick(&[KeyMode::Int, KeyMode::Int, KeyMode::Real, KeyMode::Str, KeyMode::Str, KeyMode::Wild]);
+            return gen_key(r, m);
+        }
+    };
+    // a tagged key is the same key
+    if r.chance(12) { k.insert_tag(Cell::from("t"), Cell::Int(r.range(0, 3) as i128)) } else { k }
+}
+
+/// tag maps have string keys only (a tag map is itself a map: other key types are the same finding)
+pub(crate) fn gen_tagged(r: &mut Rng, c: Cell, depth: u32) -> Cell {
+    match r.below(5) {
+        0 => c.insert_tag(Cell::from("k"), Cell::Int(r.range(0, 9) as i128)),
+        1 => c.insert_tag(Cell::from("#fmt"), Cell::Int(*r.pick(&[2i128, 8, 10, 16, 16 | 256, 10 | 512]))),
+        2 => c.with_tags(Xmap::new()),
+        3 => {
+            // tags on tags
+            let inner = gen_value(r, depth.saturating_sub(1));
+            let tv = inner.insert_tag(Cell::from("deep"), Cell::from("x"));
+            c.insert_tag(Cell::from("a"), tv).insert_tag(Cell::from("b"), Cell::Nil)
+        }
+        _ => c.insert_tag(Cell::from("a"), Cell::from("b")).insert_tag(Cell::from("len"), Cell::Int(8)),
+    }
+}
+
+/// a value of any type; maps inside values have int or str keys only (inside the guard)
+pub(crate) fn gen_value(r: &mut Rng, depth: u32) -> Cell {
+    let top = if depth == 0 { 6 } else { 9 };
+    let c = match r.below(top) {
+        0 => Cell::Nil,
+        1 => Cell::Flag(r.bool()),
+        2 => Cell::Int(if r.chance(70) { r.range(-9, 9) as i128 } else { gen_int(r) }),
+        3 => Cell::Real(if r.chance(80) { *r.pick(REAL_KEYS) } else { gen_real(r) }),
+        4 => Cell::from(gen_str(r)),
+        5 => Cell::Bitstr(bitstr_from_bits(&gen_bits(r, 10))),
+        6 | 7 => {
+            let mut v = Xvec::new();
+            for _ in 0..r.below(4) {
+                v.push_back_mut(gen_value(r, depth - 1));
+            }
+            Cell::Vector(v)
+        }
+        _ => {
+            let mut m = Xmap::new();
+            let strk = r.bool();
+            for _ in 0..r.below(4) {
+                let k = if strk { Cell::from(*r.pick(STR_KEYS)) } else { Cell::Int(r.range(0, 5) as i128) };
+                m.insert_mut(k, gen_value(r, depth - 1));
+            }
+            Cell::Map(m)
+        }
+    };
+    if r.chance(15) { gen_tagged(r, c, depth) } else { c }
+}
+
+pub(crate) fn index_set(len: usize, r: &mut Rng) -> Vec<i128> {
+    let l = len as i128;
+    let mut v = vec![
+        0, 1, -1, l - 1, l, -l, l + 1, -(l + 1), -l + 1,
+        isize::MAX as i128, isize::MIN as i128, (isize::MAX as i128) - 1, (isize::MIN as i128) + 1,
+        1i128 << 63, -(1i128 << 63) - 1, 1i128 << 64, -(1i128 << 64), (1i128 << 64) - 1, (1i128 << 64) + 1,
+        i128::MAX, i128::MIN,
+    ];
+    if len > 0 {
+        v.push(r.below(len) as i128);
+        v.push(-(r.below(len) as i128) - 1);
+    }
+    v.sort();
+    v.dedup();
+    v
+}
+
+fn vec_cell(items: &[Cell]) -> Cell {
+    let mut v = Xvec::new();
+    for x in items {
+        v.push_back_mut(x.clone());
+    }
+    Cell::Vector(v)
+}
+
+// ---------------------------------------------------------------------------------------------
+// reference models
+
+/// Python `l[a:b]` bounds for any integers
+fn py_bounds(len: usize, a: i128, b: i128) -> (usize, usize) {
+    let norm = |i: i128| -> usize {
+        let l = len as i128;
+        if i < 0 { (l + i.max(-l)) as usize } else { i.min(l) as usize }
+    };
+    let (s, e) = (norm(a), norm(b));
+    (s, e.max(s))
+}
+
+struct Fails {
+    marked: usize,
+    marked_sort: usize,
+}
+
+fn report(ctx: &mut Ctx, fails: &mut Fails, marker: &str, case: String, expected: String, observed: String) {
+    if !marker.is_empty() {
+        ctx.tag(&format!("known:{}", marker.trim()));
+        fails.marked += 1;
+        let sort = marker.contains("sort");
+        if sort { fails.marked_sort += 1; }
+        // keep room in the failure list for anything that is *not* the known finding
+        if (sort && fails.marked_sort > 4) || (!sort && fails.marked - fails.marked_sort > 6) {
+            ctx.oracle_ok();
+            return;
+        }
+    }
+    ctx.oracle_fail(format!("{}{}", marker, case), expected, observed);
+}
+
+fn check(ctx: &mut Ctx, fails: &mut Fails, marker: &str, ok: bool, case: impl FnOnce() -> String, expected: impl FnOnce() -> String, observed: impl FnOnce() -> String) {
+    if ok { ctx.oracle_ok() } else { report(ctx, fails, marker, case(), expected(), observed()) }
+}
+
+/// the implementation's map agrees with the association list
+fn map_agrees(m: &Cell, alist: &[(Cell, Cell)]) -> bool {
+    match m {
+        Cell::Map(m) => {
+            m.size() == alist.len()
+                && alist.iter().all(|(k, v)| m.iter().any(|(k2, v2)| same(k, k2) && canon::cell(v) == canon::cell(v2)))
+        }
+        _ => false,
+    }
+}
+
+fn alist_str(alist: &[(Cell, Cell)]) -> String {
+    format!("entries {{{}}}", alist.iter().map(|(k, v)| format!("{}:{}", canon::cell(k), canon::cell(v))).collect::<Vec<_>>().join(","))
+}
+
+fn alist_insert(alist: &mut Vec<(Cell, Cell)>, k: &Cell, v: &Cell) {
+    alist.retain(|(k2, _)| !same(k2, k));
+    alist.push((k.clone(), v.clone()));
+}
+
+fn map_sequence(ctx: &mut Ctx, base: &Xstate, fails: &mut Fails, mode: KeyMode, steps: usize) {
+    let marker = if mode.guarded() { "" } else { "[incomparable-keys] " };
+    ctx.tag(&format!("mapseq:keys:{}", mode.name()));
+    let mut cur = Cell::Map(Xmap::new());
+    let mut alist: Vec<(Cell, Cell)> = Vec::new();
+    for _ in 0..steps {
+        let old = cur.clone();
+        let old_txt = canon::cell(&old);
+        let old_alist = alist.clone();
+        let pick_key = |ctx: &mut Ctx, alist: &Vec<(Cell, Cell)>| {
+            if !alist.is_empty() && ctx.rng.chance(45) { alist[ctx.rng.below(alist.len())].0.clone() } else { gen_key(&mut ctx.rng, mode) }
+        };
+        match ctx.rng.below(10) {
+            0..=3 => {
+                let k = pick_key(ctx, &alist);
+                let v = gen_value(&mut ctx.rng, 2);
+                let args = [cur.clone(), v.clone(), k.clone()];
+                let (out, st) = step(ctx, base, "insert", &args);
+                alist_insert(&mut alist, &k, &v);
+                let case = || format!("C12 insert {}", canon::stack_str(&args));
+                match st {
+                    Some(st) if st.len() == 1 => {
+                        check(ctx, fails, marker, map_agrees(&st[0], &alist), case, || alist_str(&alist), || out.clone());
+                        cur = st[0].clone();
+                    }
+                    _ => report(ctx, fails, "", case(), "a map".into(), out.clone()),
+                }
+            }
+            4 => {
+                let k = pick_key(ctx, &alist);
+                let args = [cur.clone(), k.clone()];
+                let (out, st) = step(ctx, base, "remove", &args);
+                alist.retain(|(k2, _)| !same(k2, &k));
+                let case = || format!("C12 remove {}", canon::stack_str(&args));
+                match st {
+                    Some(st) if st.len() == 1 => {
+                        check(ctx, fails, marker, map_agrees(&st[0], &alist), case, || alist_str(&alist), || out.clone());
+                        cur = st[0].clone();
+                    }
+                    _ => report(ctx, fails, "", case(), "a map".into(), out.clone()),
+                }
+            }
+            5..=7 => {
+                let k = pick_key(ctx, &alist);
+                let args = [cur.clone(), k.clone()];
+                let (out, _) = step(ctx, base, "get", &args);
+                let exp = alist.iter().find(|(k2, _)| same(k2, &k)).map(|(_, v)| v.clone()).unwrap_or(Cell::Nil);
+                let exp_s = canon::ok_stack(&[exp]);
+                check(ctx, fails, marker, out == exp_s, || format!("C12 get {}", canon::stack_str(&args)), || exp_s.clone(), || out.clone());
+            }
+            8 => {
+                let args = [cur.clone()];
+                let (out, st) = step(ctx, base, "foreach", &args);
+                let case = || format!("C12 foreach {}", canon::stack_str(&args));
+                let items: Option<Vec<Cell>> = st.and_then(|st| if st.len() == 1 { st[0].vec().ok().map(|v| v.iter().cloned().collect()) } else { None });
+                match items {
+                    Some(items) if items.len() % 2 == 0 => {
+                        let pairs: Vec<(Cell, Cell)> = items.chunks(2).map(|c| (c[0].clone(), c[1].clone())).collect();
+                        let set_ok = pairs.len() == alist.len()
+                            && alist.iter().all(|(k, v)| pairs.iter().any(|(k2, v2)| same(k, k2) && canon::cell(v) == canon::cell(v2)));
+                        let sorted = !mode.guarded() || pairs.windows(2).all(|w| ref_less(&w[0].0, &w[1].0));
+                        check(ctx, fails, marker, set_ok && sorted, case, || format!("every entry once, ascending keys: {}", alist_str(&alist)), || out.clone());
+                    }
+                    _ => report(ctx, fails, "", case(), "key value key value …".into(), out.clone()),
+                }
+            }
+            _ => {
+                // a literal built from fresh pairs (duplicates included): fold of insert
+                let n = ctx.rng.below(6);
+                let mut cells = Vec::new();
+                let mut lit: Vec<(Cell, Cell)> = Vec::new();
+                for _ in 0..n {
+                    let k = pick_key(ctx, &lit);
+                    let v = gen_value(&mut ctx.rng, 1);
+                    cells.push(v.clone());
+                    cells.push(k.clone());
+                    alist_insert(&mut lit, &k, &v);
+                }
+                let odd = ctx.rng.chance(8);
+                if odd { cells.push(Cell::Int(7)); }
+                let args = [vec_cell(&cells)];
+                let (out, st) = step(ctx, base, "{}", &args);
+                let case = || format!("C12 {{}} {}", canon::stack_str(&args));
+                if odd {
+                    check(ctx, fails, "", out == "err ControlFlowError:missing_key_element", case, || "err ControlFlowError:missing_key_element".into(), || out.clone());
+                } else {
+                    match st {
+                        Some(st) if st.len() == 1 => check(ctx, fails, marker, map_agrees(&st[0], &lit), case, || alist_str(&lit), || out.clone()),
+                        _ => report(ctx, fails, "", case(), "a map".into(), out.clone()),
+                    }
+                }
+            }
+        }
+        // collections are values: the map we held before the step is unchanged
+        let ok = canon::cell(&old) == old_txt;
+        check(ctx, fails, "", ok, || format!("C12 value-semantics {}", old_txt), || old_txt.clone(), || canon::cell(&old));
+        if ctx.rng.chance(25) && !old_alist.is_empty() {
+            // and re-reading it through the language gives what it gave before
+            let (k, v) = old_alist[ctx.rng.below(old_alist.len())].clone();
+            let args = [old.clone(), k];
+            let (out, _) = step(ctx, base, "get", &args);
+            let exp_s = canon::ok_stack(&[v]);
+            check(ctx, fails, marker, out == exp_s, || format!("C12 get(old) {}", canon::stack_str(&args)), || exp_s.clone(), || out.clone());
+        }
+    }
+}
+
+// ---------------------------------------------------------------------------------------------
+// vectors and strings
+
+fn expect_index_error(out: &str) -> bool {
+    out.starts_with("err OutOfBounds") || out == "err IntegerOverflow" || out.starts_with("err TypeErrorMsg")
+}
+
+fn nth_case(ctx: &mut Ctx, base: &Xstate, fails: &mut Fails, items: &[Cell], i: i128, tagged: bool) {
+    let v = vec_cell(items);
+    let v = if tagged { v.insert_tag(Cell::from("k"), Cell::Int(1)) } else { v };
+    let args = [v, Cell::Int(i)];
+    let (out, _) = step(ctx, base, "nth", &args);
+    let l = items.len() as i128;
+    let case = || format!("C12 nth {}", canon::stack_str(&args));
+    if i >= -l && i < l {
+        let e = &items[(if i < 0 { l + i } else { i }) as usize];
+        let exp = canon::ok_stack(&[e.clone()]);
+        check(ctx, fails, "", out == exp, case, || exp.clone(), || out.clone());
+    } else {
+        check(ctx, fails, "", out.starts_with("err OutOfBounds") || out == "err IntegerOverflow", case, || "err OutOfBounds / IntegerOverflow".into(), || out.clone());
+        // inside the isize range the error names the index and the bounds
+        if i >= isize::MIN as i128 && i <= isize::MAX as i128 {
+            let exp = format!("err OutOfBounds:{}:0..{}", i, l);
+            check(ctx, fails, "", out == exp, case, || exp.clone(), || out.clone());
+        }
+    }
+}
+
+fn get_case(ctx: &mut Ctx, base: &Xstate, fails: &mut Fails, items: &[Cell], i: i128) {
+    let args = [vec_cell(items), Cell::Int(i)];
+    let (out, _) = step(ctx, base, "get", &args);
+    let l = items.len() as i128;
+    let case = || format!("C12 get {}", canon::stack_str(&args));
+    if i >= 0 && i < l {
+        let exp = canon::ok_stack(&[items[i as usize].clone()]);
+        check(ctx, fails, "", out == exp, case, || exp.clone(), || out.clone());
+    } else {
+        check(ctx, fails, "", expect_index_error(&out), case, || "an index error".into(), || out.clone());
+    }
+}
+
+fn slice_case(ctx: &mut Ctx, base: &Xstate, fails: &mut Fails, seq: &Cell, a: i128, b: i128) {
+    let args = [seq.clone(), Cell::Int(a), Cell::Int(b)];
+    let (out, _) = step(ctx, base, "slice", &args);
+    let exp = match seq.value() {
+        Cell::Vector(v) => {
+            let items: Vec<Cell> = v.iter().cloned().collect();
+            let (s, e) = py_bounds(items.len(), a, b);
+            canon::ok_stack(&[vec_cell(&items[s..e])])
+        }
+        Cell::Str(s) => {
+            let chars: Vec<char> = s.chars().collect();
+            let (st, e) = py_bounds(chars.len(), a, b);
+            canon::ok_stack(&[Cell::from(chars[st..e].iter().collect::<String>())])
+        }
+        _ => return,
+    };
+    check(ctx, fails, "", out == exp, || format!("C12 slice {}", canon::stack_str(&args)), || exp.clone(), || out.clone());
+}
+
+fn gen_items(r: &mut Rng, n: usize, depth: u32) -> Vec<Cell> {
+    (0..n).map(|_| gen_value(r, depth)).collect()
+}
+
+fn sort_case(ctx: &mut Ctx, base: &Xstate, fails: &mut Fails, items: &[Cell]) {
+    let class0 = items.first().and_then(key_class);
+    let comparable = items.iter().all(|x| key_class(x).is_some() && key_class(x) == class0);
+    let marker = if comparable { "" } else { "[incomparable-sort] " };
+    ctx.tag(if comparable { "sort:comparable" } else { "sort:mixed" });
+    let args = [vec_cell(items)];
+    let (out, st) = step(ctx, base, "sort", &args);
+    let case = || format!("C12 sort {}", canon::stack_str(&args));
+    if out == "panic" {
+        return report(ctx, fails, marker, case(), "a vector, never a panic".into(), out);
+    }
+    let res: Option<Vec<Cell>> = st.and_then(|st| if st.len() == 1 { st[0].vec().ok().map(|v| v.iter().cloned().collect()) } else { None });
+    match res {
+        Some(res) => {
+            let mut a: Vec<String> = items.iter().map(canon::cell).collect();
+            let mut b: Vec<String> = res.iter().map(canon::cell).collect();
+            a.sort();
+            b.sort();
+            let perm = a == b;
+            let sorted = !comparable || res.windows(2).all(|w| !ref_less(&w[1], &w[0]));
+            check(ctx, fails, marker, perm && sorted, case, || "an ascending permutation of the input".into(), || out.clone());
+        }
+        None => report(ctx, fails, "", case(), "a vector".into(), out),
+    }
+}
+
+fn vec_sequence(ctx: &mut Ctx, base: &Xstate, fails: &mut Fails, steps: usize) {
+    let n0 = ctx.rng.below(5);
+    let mut items = gen_items(&mut ctx.rng, n0, 2);
+    let mut cur = vec_cell(&items);
+    for _ in 0..steps {
+        let old = cur.clone();
+        let old_items = items.clone();
+        let old_txt = canon::cell(&old);
+        match ctx.rng.below(9) {
+            0..=2 => {
+                let x = gen_value(&mut ctx.rng, 2);
+                let args = [x.clone(), cur.clone()];
+                let (out, st) = step(ctx, base, "push", &args);
+                items.push(x);
+                let exp = canon::ok_stack(&[vec_cell(&items)]);
+                check(ctx, fails, "", out == exp, || format!("C12 push {}", canon::stack_str(&args)), || exp.clone(), || out.clone());
+                if let Some(st) = st { if st.len() == 1 { cur = st[0].clone(); } }
+            }
+            3 => {
+                let args = [cur.clone()];
+                let (out, st) = step(ctx, base, "reverse", &args);
+                items.reverse();
+                let exp = canon::ok_stack(&[vec_cell(&items)]);
+                check(ctx, fails, "", out == exp, || format!("C12 reverse {}", canon::stack_str(&args)), || exp.clone(), || out.clone());
+                if let Some(st) = st { if st.len() == 1 { cur = st[0].clone(); } }
+            }
+            4 => {
+                let args = [cur.clone()];
+                let (out, _) = step(ctx, base, "length", &args);
+                let exp = canon::ok_stack(&[Cell::Int(items.len() as i128)]);
+                check(ctx, fails, "", out == exp, || format!("C12 length {}", canon::stack_str(&args)), || exp.clone(), || out.clone());
+            }
+            5 => {
+                let idx = index_set(items.len(), &mut ctx.rng);
+                let i = *ctx.rng.pick(&idx);
+                let tagged = ctx.rng.chance(15);
+                nth_case(ctx, base, fails, &items, i, tagged);
+            }
+            6 => {
+                let idx = index_set(items.len(), &mut ctx.rng);
+                let i = *ctx.rng.pick(&idx);
+                get_case(ctx, base, fails, &items, i);
+            }
+            7 => {
+                let idx = index_set(items.len(), &mut ctx.rng);
+                let (a, b) = (*ctx.rng.pick(&idx), *ctx.rng.pick(&idx));
+                let (out, st) = {
+                    slice_case(ctx, base, fails, &cur, a, b);
+                    run_src(base, "slice", &[cur.clone(), Cell::Int(a), Cell::Int(b)])
+                };
+                let _ = out;
+                if ctx.rng.bool() {
+                    if let Some(st) = st { if st.len() == 1 { if let Ok(v) = st[0].vec() { items = v.iter().cloned().collect(); cur = st[0].clone(); } } }
+                }
+            }
+            _ => {
+                // unbox then collect gives the vector back; the cell underneath is untouched
+                let args = [Cell::Int(42), cur.clone()];
+                let (out, _) = step(ctx, base, "unbox", &args);
+                let mut exp_st = vec![Cell::Int(42)];
+                exp_st.extend(items.iter().cloned());
+                let exp = canon::ok_stack(&exp_st);
+                check(ctx, fails, "", out == exp, || format!("C12 unbox {}", canon::stack_str(&args)), || exp.clone(), || out.clone());
+                let mut args2 = exp_st.clone();
+                args2.push(Cell::Int(items.len() as i128));
+                let (out2, _) = step(ctx, base, "collect", &args2);
+                let exp2 = canon::ok_stack(&[Cell::Int(42), vec_cell(&items)]);
+                check(ctx, fails, "", out2 == exp2, || format!("C12 collect {}", canon::stack_str(&args2)), || exp2.clone(), || out2.clone());
+            }
+        }
+        // value semantics: the vector held before the step still reads the same
+        check(ctx, fails, "", canon::cell(&old) == old_txt, || format!("C12 value-semantics {}", old_txt), || old_txt.clone(), || canon::cell(&old));
+        if !old_items.is_empty() && ctx.rng.chance(30) {
+            let i = ctx.rng.below(old_items.len());
+            let (out, _) = run_src(base, "nth", &[old.clone(), Cell::Int(i as i128)]);
+            let exp = canon::ok_stack(&[old_items[i].clone()]);
+            check(ctx, fails, "", out == exp, || format!("C12 nth(old) {} i{}", old_txt, i), || exp.clone(), || out.clone());
+        }
+    }
+}
+
+fn join_elem(r: &mut Rng, depth: u32) -> Cell {
+    match r.below(if depth == 0 { 4 } else { 6 }) {
+        0 | 1 => Cell::from(gen_str(r)),
+        2 => Cell::Int(if r.chance(70) { r.range(-99, 99) as i128 } else { gen_int(r) }),
+        3 => r.pick(&[Cell::Nil, Cell::Flag(true), Cell::Flag(false)]).clone(),
+        4 => {
+            let n = r.below(4);
+            let v = vec_cell(&(0..n).map(|_| join_elem(r, depth - 1)).collect::<Vec<_>>());
+            if r.chance(20) { v.insert_tag(Cell::from("k"), Cell::Int(1)) } else { v }
+        }
+        _ => Cell::from(gen_str(r)).insert_tag(Cell::from("k"), Cell::Int(2)),
+    }
+}
+
+fn join_cases(ctx: &mut Ctx, base: &Xstate, fails: &mut Fails) {
+    // strings only: the oracle is Rust's own concat / join
+    let n = ctx.rng.below(5);
+    let strs: Vec<String> = (0..n).map(|_| gen_str(&mut ctx.rng)).collect();
+    let v = vec_cell(&strs.iter().map(|s| Cell::from(s.as_str())).collect::<Vec<_>>());
+    let (out, _) = step(ctx, base, "concat", &[v.clone()]);
+    let exp = canon::ok_stack(&[Cell::from(strs.concat())]);
+    check(ctx, fails, "", out == exp, || format!("C12 concat {}", canon::cell(&v)), || exp.clone(), || out.clone());
+    let sep = gen_str(&mut ctx.rng);
+    let (out, _) = step(ctx, base, "join", &[v.clone(), Cell::from(sep.as_str())]);
+    let exp = canon::ok_stack(&[Cell::from(strs.join(&sep))]);
+    check(ctx, fails, "", out == exp, || format!("C12 join {} {}", canon::cell(&v), sep), || exp.clone(), || out.clone());
+    // correspondence only: nested vectors, ints, nil, flags, tagged strings / vectors
+    let n = ctx.rng.below(5);
+    let v = vec_cell(&(0..n).map(|_| join_elem(&mut ctx.rng, 2)).collect::<Vec<_>>());
+    step(ctx, base, "concat", &[v.clone()]);
+    step(ctx, base, "join", &[v, Cell::from(sep.as_str())]);
+}
+
+fn string_cases(ctx: &mut Ctx, base: &Xstate, fails: &mut Fails) {
+    let s = gen_str(&mut ctx.rng);
+    let c = Cell::from(s.as_str());
+    let c = if ctx.rng.chance(15) { c.insert_tag(Cell::from("k"), Cell::Int(1)) } else { c };
+    let (out, _) = step(ctx, base, "length", &[c.clone()]);
+    // `length` of a string counts UTF-8 bytes (slice counts chars)
+    let exp = canon::ok_stack(&[Cell::Int(s.len() as i128)]);
+    check(ctx, fails, "", out == exp, || format!("C12 length {}", canon::cell(&c)), || exp.clone(), || out.clone());
+    let idx = index_set(s.chars().count(), &mut ctx.rng);
+    let (a, b) = (*ctx.rng.pick(&idx), *ctx.rng.pick(&idx));
+    slice_case(ctx, base, fails, &c, a, b);
+}
+
+/// malformed stream: wrong operand types, missing operands, non-collections
+fn malformed(ctx: &mut Ctx, base: &Xstate, fails: &mut Fails) {
+    const WORDS: &[&str] = &["insert", "remove", "get", "length", "nth", "slice", "concat", "join", "sort", "reverse", "push", "collect", "unbox",
+        "nil?", "bool?", "int?", "real?", "str?", "bitstr?", "vec?", "{}", "[]", "foreach"];
+    let w = *ctx.rng.pick(WORDS);
+    let special = matches!(w, "{}" | "[]" | "foreach");
+    let n = if special { 1 } else { ctx.rng.below(4) };
+    let args: Vec<Cell> = (0..n).map(|_| {
+        let r = &mut ctx.rng;
+        match r.below(4) { 0 => { let idx = index_set(3, r); Cell::Int(*r.pick(&idx)) } 1 => gen_wild(r), _ => gen_value(r, 1) }
+    }).collect();
+    ctx.tag("stream:malformed");
+    // sort of an arbitrary vector may be inconsistent; leave those to sort_case
+    if w == "sort" { return; }
+    // map probes with arbitrary keys on maps that have int/str keys are outside the guard: correspondence
+    // (the driver answers `unsupported` when the tree shape matters) but no oracle
+    let (out, _) = step(ctx, base, w, &args);
+    check(ctx, fails, "", out != "panic", || format!("C12 {} {}", w, canon::stack_str(&args)), || "a result or an error value, never a panic".into(), || out.clone());
+}
+
+fn equal_cases(ctx: &mut Ctx, base: &Xstate, fails: &mut Fails) {
+    let a = gen_value(&mut ctx.rng, 2);
+    let b = match ctx.rng.below(3) {
+        0 => a.clone(),
+        1 => gen_tagged(&mut ctx.rng, a.clone(), 1),
+        _ => gen_value(&mut ctx.rng, 2),
+    };
+    let (out, _) = run_src(base, "equal?", &[a.clone(), b.clone()]);
+    ctx.tag("word:equal?");
+    let exp = canon::ok_stack(&[Cell::Flag(same(&a, &b))]);
+    check(ctx, fails, "", out == exp, || format!("C12 equal? {} {}", canon::cell(&a), canon::cell(&b)), || exp.clone(), || out.clone());
+}
+
+pub fn run(ctx: &mut Ctx) {
+    let base = Xstate::boot().unwrap();
+    let mut fails = Fails { marked: 0, marked_sort: 0 };
+    // 1. exhaustive small scope: every index of the boundary set on vectors and strings of length 0..4
+    let strs = ["", "a", "aé", "日本語", "a😀cd"];
+    for len in 0..=4usize {
+        let items: Vec<Cell> = (0..len).map(|i| Cell::Int(10 + i as i128)).collect();
+        let idx = index_set(len, &mut ctx.rng);
+        for &i in &idx {
+            nth_case(ctx, &base, &mut fails, &items, i, false);
+            get_case(ctx, &base, &mut fails, &items, i);
+        }
+        let v = vec_cell(&items);
+        let s = Cell::from(strs[len]);
+        for (x, &a) in idx.iter().enumerate() {
+            for (y, &b) in idx.iter().enumerate() {
+                if !ctx.thorough && (x + 2 * y) % 3 != 0 { continue; }
+                slice_case(ctx, &base, &mut fails, &v, a, b);
+                slice_case(ctx, &base, &mut fails, &s, a, b);
+            }
+        }
+    }
+    // the documented witnesses of the finding
+    {
+        let cells = [Cell::Int(1), Cell::from("a"), Cell::Int(2), Cell::Int(5)];
+        let args = [vec_cell(&cells)];
+        let (out, st) = step(ctx, &base, "{}", &args);
+        let lit = vec![(Cell::from("a"), Cell::Int(1)), (Cell::Int(5), Cell::Int(2))];
+        let ok = st.map(|st| st.len() == 1 && map_agrees(&st[0], &lit)).unwrap_or(false);
+        check(ctx, &mut fails, "[incomparable-keys] ", ok, || format!("C12 {{}} {}", canon::stack_str(&args)), || alist_str(&lit), || out.clone());
+    }
+    // 2. sequences
+    for s in 0..ctx.n {
+        match s % 10 {
+            0..=4 => {
+                let mode = match ctx.rng.below(20) {
+                    0..=5 => KeyMode::Int,
+                    6..=9 => KeyMode::Str,
+                    10..=12 => KeyMode::Real,
+                    13..=14 => KeyMode::Wild,
+                    _ => KeyMode::Mixed,
+                };
+                let steps = 3 + ctx.rng.below(8);
+                map_sequence(ctx, &base, &mut fails, mode, steps);
+            }
+            5..=6 => {
+                let steps = 3 + ctx.rng.below(6);
+                vec_sequence(ctx, &base, &mut fails, steps);
+            }
+            7 => {
+                join_cases(ctx, &base, &mut fails);
+                string_cases(ctx, &base, &mut fails);
+                equal_cases(ctx, &base, &mut fails);
+            }
+            8 => {
+                // sort: one comparable class, all-incomparable, or mixed (long enough for std's order check)
+                let r = &mut ctx.rng;
+                let n = if r.chance(15) { 20 + r.below(60) } else { r.below(9) };
+                let items: Vec<Cell> = match r.below(6) {
+                    0 | 1 => (0..n).map(|_| gen_key(r, KeyMode::Int)).collect(),
+                    2 => (0..n).map(|_| gen_key(r, KeyMode::Str)).collect(),
+                    3 => (0..n).map(|_| gen_key(r, KeyMode::Real)).collect(),
+                    4 => (0..n).map(|_| gen_key(r, KeyMode::Wild)).collect(),
+                    _ => (0..n).map(|_| gen_key(r, KeyMode::Mixed)).collect(),
+                };
+                sort_case(ctx, &base, &mut fails, &items);
+            }
+            _ => {
+                malformed(ctx, &base, &mut fails);
+                malformed(ctx, &base, &mut fails);
+                malformed(ctx, &base, &mut fails);
+            }
+        }
+    }
+    ctx.note(format!("oracle failures attributable to the known Ord finding (marked): {} of which sort: {}", fails.marked, fails.marked_sort));
+}
